@@ -24,6 +24,7 @@ structure DictModel where
   locate : Str → Option Nat
   extract : Nat → Option (Option Str)
   image : Option (List UInt8) := none
+  exact : Bool := false      -- answers come from an exact model: `none` is a model fault, not "unknown"
 
 def isHashKind (k : String) : Bool :=
   k == "HASHHF" || k == "HASHRPF" || k == "HASHUFFDAC" || k == "HASHRPDAC" || k == "BLOCKS"
@@ -87,7 +88,7 @@ def runDict (c : Case) (m : DictModel) (emit : Nat → String → IO Unit) : IO 
     | ["loc", h] =>
       match m.locate (unhex h) with
       | some i => emit k s!"L {i}"
-      | none => emit k "L ?"
+      | none => emit k (if m.exact then "L MODEL-FAULT" else "L ?")
     | ["rt", h] =>
       let q := unhex h
       if Spec.locate S q = 0 then emit k "RT 0" else emit k s!"RT {hexOfBytes q} inrange=1"
@@ -96,7 +97,7 @@ def runDict (c : Case) (m : DictModel) (emit : Nat → String → IO Unit) : IO 
       match m.extract i with
       | some none => emit k "E NULL 0"
       | some (some s) => emit k s!"E {strOrNull (some s)}"
-      | none => emit k "E ?"
+      | none => emit k (if m.exact then "E MODEL-FAULT" else "E ?")
     | ["exts"] => emit k s!"XS {joinStrs (sortStrs S)}"
     | ["pre", h] => emit k s!"P {joinIds (mapIds m (if m.hasPrefix then Spec.prefixIds S (unhex h) else []))}"
     | ["sub", h] => emit k s!"B {joinIds (mapIds m (if m.hasSubstr then Spec.substrIds S (unhex h) else []))}"
